@@ -13,8 +13,13 @@ import (
 	"os"
 )
 
-// Property is the only property this engine judges.
-const Property = "C20"
+// Property is what the engine judges: start-up failures and exits (C20).
+// PropertyOneShell (C12) is judged by the -one-shell family, which is part of
+// the C20 enumeration and the whole of the C12 one.
+const (
+	Property         = "C20"
+	PropertyOneShell = "C12"
+)
 
 // Informational flags.
 const (
@@ -59,17 +64,35 @@ const (
 	FCacheBelowFile     = "cache_below_file"
 	FCacheIsDir         = "cache_is_dir"
 	FCacheDirUnwritable = "cache_dir_unwritable"
+	FCacheUncreatable   = "cache_uncreatable"
 	FLogIsDir           = "log_is_dir"
 	FLogBelowFile       = "log_below_file"
 	FCtrlIMissing       = "ctrli_missing"
 )
 
-// Ways of leaving a normally started program.
+// Ways of leaving a normally started program (and the -one-shell family,
+// see oneshell.go).
 const (
-	ExitCtrlC    = "ctrl_c"
-	ExitCtrlD    = "ctrl_d"
-	ExitOneShell = "one_shell"
+	ExitCtrlC = "ctrl_c"
+	ExitCtrlD = "ctrl_d"
+	// leaving with a Ctrl+I insert in flight: -ctrl-i names a directory of
+	// many files, Tab is typed and the program is left at once
+	ExitInsertCtrlD = "insert_ctrl_d" // "\t\x04" in one write
+	ExitInsertCtrlC = "insert_ctrl_c" // Tab, then Ctrl+C
 )
+
+// UncreatablePath is a cache path whose directory exists but in which not
+// even root can create a file.
+const UncreatablePath = "/proc/curlrevshell-verif-cert.txtar"
+
+func isInsertExit(how string) bool { return how == ExitInsertCtrlD || how == ExitInsertCtrlC }
+
+// insertSweep is how many files the Ctrl+I directory holds in the successive
+// processes of one insert case: whether the insert is still being prepared,
+// just being handed over or done when the program leaves depends on how long
+// the preparation takes, so the case sweeps over it.  The oracle does not
+// depend on which of them happens.
+var insertSweep = []int{300, 0, 1, 2, 3, 4, 6, 8, 12, 16, 24, 0, 1, 2, 3, 4, 6, 8, 12, 16, 24}
 
 // Action is one independent item of a case: a start-up fault, or the way the
 // harness ends a program that started normally.
@@ -101,7 +124,7 @@ func group(id string) string {
 	case FAddrUnparsable, FAddrUnresolvable, FAddrInUse:
 		return "addr"
 	case FCacheTruncated, FCacheGarbage, FCacheKeyCertSwap, FCacheBelowFile,
-		FCacheIsDir, FCacheDirUnwritable:
+		FCacheIsDir, FCacheDirUnwritable, FCacheUncreatable:
 		return "cache"
 	case FLogIsDir, FLogBelowFile:
 		return "log"
@@ -134,6 +157,9 @@ func faultItems() []Action {
 	if !isRoot() {
 		l = append(l, Action{K: KFault, ID: FCacheDirUnwritable})
 	}
+	// unwritable for root as well: the directory exists, nothing is cached
+	// yet, and no file can be created there
+	l = append(l, Action{K: KFault, ID: FCacheUncreatable})
 	return append(l,
 		Action{K: KFault, ID: FLogIsDir},
 		Action{K: KFault, ID: FLogBelowFile},
@@ -147,7 +173,32 @@ var normalExits = []struct{ how, cache string }{
 	{ExitCtrlC, CacheFresh},
 	{ExitCtrlD, CacheGood},
 	{ExitCtrlD, CacheDefault},
-	{ExitOneShell, CacheFresh},
+	{ExitInsertCtrlD, CacheFresh},
+	{ExitInsertCtrlC, CacheFresh},
+}
+
+// oneShellVariants is in how many termios variants a one-shell scenario is
+// run: the one that has to sit out the server's five-second grace for
+// silent connections only in two.
+func oneShellVariants(how string) int {
+	if how == ExitOneShellIdleStraggler {
+		return 2
+	}
+	return numTermiosVariants
+}
+
+// enumerateOneShell lists the -one-shell family.
+func enumerateOneShell() []caseSpec {
+	var out []caseSpec
+	for _, how := range oneShellFamily {
+		for v := 0; v < oneShellVariants(how); v++ {
+			out = append(out, caseSpec{
+				cfg:  Config{TTY: true, Termios: v, Cache: CacheFresh},
+				acts: []Action{{K: KExit, ID: how}},
+			})
+		}
+	}
+	return out
 }
 
 // enumerate lists the whole (finite) case space in its fixed order.
@@ -162,6 +213,7 @@ func enumerate(skipNoTTY bool) []caseSpec {
 			})
 		}
 	}
+	out = append(out, enumerateOneShell()...)
 	// the empty set, every single fault, every pair of non-contradicting faults
 	items := faultItems()
 	sets := [][]Action{nil}
@@ -250,9 +302,7 @@ func (cs *caseSpec) validate() string {
 			}
 		case KExit:
 			exits++
-			switch a.ID {
-			case ExitCtrlC, ExitCtrlD, ExitOneShell:
-			default:
+			if a.ID != ExitCtrlC && a.ID != ExitCtrlD && !isInsertExit(a.ID) && !isOneShell(a.ID) {
 				return "unknown exit " + a.ID
 			}
 		default:
